@@ -112,6 +112,48 @@ def _check_counter(R, rid, f, counter):
               "generated names collide" % (f.qualname, counter, "increments per call: %s" % sorted(at_exit)))
 
 
+def _boundary_pin_left_behind(pl, d_in, d_out, iw, ow):
+    """every way through one iteration of the port-pin loop `pl` disconnects the port pin from the inner net unless that net is known
+    to be missing, and the instance pin from the outer net unless that one is; returns the side left behind, or None"""
+    from ..paths import stmt_paths
+    from ..core import copy_tree
+    marks = {}
+    for nm, c in (("in", d_in), ("out", d_out)):
+        st = _stmt_of(c)
+        marks[norm(st)] = nm
+
+    def swap(stmts):
+        out = []
+        for st in stmts:
+            if isinstance(st, ast.Expr) and norm(st) in marks:
+                out.append(ast.copy_location(ast.Assign(targets=[ast.Name(id="__done_" + marks[norm(st)], ctx=ast.Store())], value=ast.Constant(value=True)), st))
+                continue
+            if isinstance(st, (ast.For, ast.While)):
+                out.append(st)
+                continue
+            for fld in ("body", "orelse"):
+                sub = getattr(st, fld, None)
+                if isinstance(sub, list) and sub and isinstance(sub[0], ast.stmt):
+                    setattr(st, fld, swap(sub))
+            out.append(st)
+        return out
+    body = swap(copy_tree(list(pl.body)))
+    for oc, fa, df in stmt_paths(body, frozenset(), {}, None, None, opaque_loops=True):
+        if oc is None:
+            return None
+        if oc == "raise":
+            continue
+        from ..paths import expand
+        if any(a.startswith("falsy(") and ("truthy(" + a[len("falsy("):]) in fa for a in fa):
+            continue  # the same local tested twice with different outcomes: not a way through the body
+        for side, w in (("in", iw), ("out", ow)):
+            names = {w, expand(w, df)}
+            missing = any(a in fa for x in names for a in ("falsy(%s)" % x, "is(%s,None)" % x))
+            if not missing and ("__done_" + side) not in df:
+                return "port pin" if side == "in" else "instance pin"
+    return None
+
+
 def _recorded_exactly_for_non_leaves(w, st_sh):
     """every way through one iteration of the work loop `w` records the instance for removal (statement st_sh) exactly when the leaf
     test came out false; None when the loop body is outside what path enumeration models"""
@@ -642,8 +684,10 @@ def check_c08(ctx, R):
             if isinstance(e, ast.Call) and isinstance(e.func, ast.Name) and e.func.id in mod.functions and len(e.args) == 1 and norm(e.args[0]) == binding:
                 h = mod.functions[e.func.id]
                 body = [s_ for s_ in h.node.body if not (isinstance(s_, ast.Expr) and isinstance(s_.value, ast.Constant))]
-                if len(h.params) == 1 and len(body) == 1 and isinstance(body[0], ast.Return) and body[0].value is not None:
-                    return make_eval(h.node, h.params[0])(body[0].value, A, B)
+                # a single return, possibly after single-assignment locals (`reference = instance.reference`), which ref_of looks through
+                if len(h.params) == 1 and body and isinstance(body[-1], ast.Return) and body[-1].value is not None and all(
+                        isinstance(b_, ast.Assign) and len(b_.targets) == 1 and isinstance(b_.targets[0], ast.Name) for b_ in body[:-1]):
+                    return make_eval(h.node, h.params[0])(body[-1].value, A, B)
                 return None
             if isinstance(e, ast.Name) and len(defs.get(e.id, [])) == 1:
                 return ev(defs[e.id][0], A, B, depth + 1)
@@ -917,7 +961,12 @@ def check_c09(ctx, R):
         d_out = [c for c in disc if norm(c.func.value) == ow and resolve(norm(c.args[0])) == "%s.pins[%s]" % (rd.params[0], pv)]
         moves = [lp for lp in walk_local(pl) if isinstance(lp, ast.For) and lp is not pl and _calls(lp, lambda c: _is_method(c, "connect_pin") and norm(c.func.value) == ow
                                                                                                        and c.args and norm(c.args[0]) == norm(lp.target))]
-        if d_in and d_out and moves and _pos(d_in[0]) < _pos(moves[0]) and _pos(d_out[0]) < _pos(moves[0]):
+        one_sided = _boundary_pin_left_behind(pl, d_in[0] if d_in else None, d_out[0] if d_out else None, iw, ow) if d_in and d_out else None
+        if one_sided:
+            R.bad("F4", "%s|boundary pin left on a one-sided port" % rd.key, rd.loc(pl),
+                  "%s can finish a port pin without taking the %s off its net although that net exists (a path that only knows the other side is missing): when "
+                  "a port is wired on one side only, the pin of the dissolved cell stays on a net of the flattened design" % (rd.qualname, one_sided))
+        elif d_in and d_out and moves and _pos(d_in[0]) < _pos(moves[0]) and _pos(d_out[0]) < _pos(moves[0]):
             R.ok("F4", "%s takes the port pin off the inner net and the instance pin off the outer net before merging" % rd.qualname, rd.loc(d_in[0]))
         else:
             R.bad("F4", "%s|boundary pins" % rd.key, rd.loc(pl),
